@@ -58,7 +58,7 @@ func regionOf(c *Ctx, E *ssa.Function) []*ssa.Function {
 			out = append(out, h)
 		}
 	}
-	sort.Slice(out, func(i, j int) bool { return out[i].Pos() < out[j].Pos() })
+	sort.Slice(out, func(i, j int) bool { return ir.PosLess(out[i].Pos(), out[j].Pos()) })
 	return append([]*ssa.Function{E}, out...)
 }
 
